@@ -23,6 +23,7 @@
 #include <stdexcept>
 #include <cmath>
 #include <algorithm>
+#include <limits>
 
 #include "count_zeros.hpp"
 #include "conditional_forward.hpp"
@@ -405,6 +406,9 @@ req_compactor<T, C, A> req_compactor<T, C, A>::deserialize(std::istream& is, con
   read<uint16_t>(is); // padding
   auto num_items = read<uint32_t>(is);
   if (!is.good()) throw std::runtime_error("error reading from std::istream");
+  if (!(section_size_raw >= req_constants::MIN_K - 1 && section_size_raw <= std::numeric_limits<uint16_t>::max()) || num_sections == 0) {
+    throw std::invalid_argument("Possible corruption: invalid section size or number of sections");
+  }
   auto items = deserialize_items(is, serde, allocator, num_items);
   return req_compactor(hra, lg_weight, sorted, section_size_raw, num_sections, state, std::move(items), num_items,
       comparator, allocator);
@@ -451,6 +455,9 @@ std::pair<req_compactor<T, C, A>, size_t> req_compactor<T, C, A>::deserialize(co
   ptr += 2; // padding
   uint32_t num_items;
   ptr += copy_from_mem(ptr, num_items);
+  if (!(section_size_raw >= req_constants::MIN_K - 1 && section_size_raw <= std::numeric_limits<uint16_t>::max()) || num_sections == 0) {
+    throw std::invalid_argument("Possible corruption: invalid section size or number of sections");
+  }
   auto pair = deserialize_items(ptr, end_ptr - ptr, serde, allocator, num_items);
   ptr += pair.second;
   return std::pair<req_compactor, size_t>(
